@@ -76,6 +76,9 @@ trait CommandSizeLimiter {
         cursor: LimiterCursor<'_>,
     ) -> Result<Argument, ExhaustedCommandSpace>;
     fn dyn_clone(&self) -> Box<dyn CommandSizeLimiter>;
+    /// Verification hook: (name, counter, limit) of this limiter.
+    #[cfg(findutils_verif)]
+    fn verif_counter(&self) -> (&'static str, usize, usize);
 }
 
 /// A pointer to the next limiter. A limiter should *always* call the cursor's
@@ -119,6 +122,21 @@ impl LimiterCollection {
             limiters: &mut self.limiters[..],
         };
         cursor.try_next(arg)
+    }
+}
+
+#[cfg(findutils_verif)]
+impl LimiterCollection {
+    /// Verification hook: the counters of all limiters as JSON object members.
+    fn verif_state(&self) -> String {
+        self.limiters
+            .iter()
+            .map(|l| {
+                let (name, counter, limit) = l.verif_counter();
+                format!("\"{name}\":{counter},\"max_{name}\":{limit}")
+            })
+            .collect::<Vec<_>>()
+            .join(",")
     }
 }
 
@@ -291,6 +309,11 @@ impl CommandSizeLimiter for SystemCommandSizeLimiter {
     fn dyn_clone(&self) -> Box<dyn CommandSizeLimiter> {
         Box::new(self.clone())
     }
+
+    #[cfg(findutils_verif)]
+    fn verif_counter(&self) -> (&'static str, usize, usize) {
+        ("sys", self.current_size, self.max_size)
+    }
 }
 
 impl CommandSizeLimiter for MaxCharsCommandSizeLimiter {
@@ -314,6 +337,11 @@ impl CommandSizeLimiter for MaxCharsCommandSizeLimiter {
 
     fn dyn_clone(&self) -> Box<dyn CommandSizeLimiter> {
         Box::new(self.clone())
+    }
+
+    #[cfg(findutils_verif)]
+    fn verif_counter(&self) -> (&'static str, usize, usize) {
+        ("chars", self.current_size, self.max_chars)
     }
 }
 
@@ -354,6 +382,11 @@ impl CommandSizeLimiter for MaxArgsCommandSizeLimiter {
 
     fn dyn_clone(&self) -> Box<dyn CommandSizeLimiter> {
         Box::new(self.clone())
+    }
+
+    #[cfg(findutils_verif)]
+    fn verif_counter(&self) -> (&'static str, usize, usize) {
+        ("args", self.current_args, self.max_args)
     }
 }
 
@@ -398,6 +431,11 @@ impl CommandSizeLimiter for MaxLinesCommandSizeLimiter {
 
     fn dyn_clone(&self) -> Box<dyn CommandSizeLimiter> {
         Box::new(self.clone())
+    }
+
+    #[cfg(findutils_verif)]
+    fn verif_counter(&self) -> (&'static str, usize, usize) {
+        ("lines", self.current_line, self.max_lines)
     }
 }
 
@@ -822,30 +860,69 @@ fn process_input(
     let mut current_builder = CommandBuilder::new(builder_options);
     let mut have_pending_command = false;
     let mut result = CommandResult::Success;
+    #[cfg(findutils_verif)]
+    verif::emit("Init", &current_builder.limiters.verif_state());
 
     while let Some(arg) = args.next()? {
+        #[cfg(findutils_verif)]
+        let verif_arg = verif::describe(&arg);
+        #[cfg(findutils_verif)]
+        let mut verif_retried = false;
         if let Err(ExhaustedCommandSpace { arg, out_of_chars }) = current_builder.add_arg(arg) {
             if out_of_chars
                 && options.exit_if_pass_char_limit
                 && (options.max_args.is_some() || options.max_lines.is_some())
             {
+                #[cfg(findutils_verif)]
+                verif::emit("XFail", &verif_arg);
                 return Err(XargsError::ArgumentTooLarge);
             }
             if have_pending_command {
+                #[cfg(findutils_verif)]
+                verif::emit(
+                    "Exec",
+                    &format!("\"n\":{},\"eof\":false", current_builder.extra_args.len()),
+                );
                 result.combine(current_builder.execute()?);
             }
 
             current_builder = CommandBuilder::new(builder_options);
             if let Err(ExhaustedCommandSpace { .. }) = current_builder.add_arg(arg) {
+                #[cfg(findutils_verif)]
+                verif::emit("TooLarge", &verif_arg);
                 return Err(XargsError::ArgumentTooLarge);
             }
+            #[cfg(findutils_verif)]
+            {
+                verif_retried = true;
+                verif::emit(
+                    "Retry",
+                    &format!("{verif_arg},{}", current_builder.limiters.verif_state()),
+                );
+            }
+        }
+        #[cfg(findutils_verif)]
+        if !verif_retried {
+            verif::emit(
+                "Accept",
+                &format!("{verif_arg},{}", current_builder.limiters.verif_state()),
+            );
         }
 
         have_pending_command = true;
     }
 
     if !options.no_run_if_empty || have_pending_command {
+        #[cfg(findutils_verif)]
+        verif::emit(
+            "Exec",
+            &format!("\"n\":{},\"eof\":true", current_builder.extra_args.len()),
+        );
         result.combine(current_builder.execute()?);
+    }
+    #[cfg(findutils_verif)]
+    if options.no_run_if_empty && !have_pending_command {
+        verif::emit("EofSkip", "\"n\":0");
     }
 
     Ok(result)
@@ -1162,6 +1239,13 @@ fn do_xargs(args: &[&str]) -> Result<CommandResult, XargsError> {
 
 #[must_use]
 pub fn xargs_main(args: &[&str]) -> i32 {
+    #[cfg(findutils_verif)]
+    if verif::enter_traced_main() {
+        let code = xargs_main(args);
+        verif::leave_traced_main();
+        verif::emit("Exit", &format!("\"code\":{code}"));
+        return code;
+    }
     match do_xargs(args) {
         Ok(CommandResult::Success) => 0,
         Ok(CommandResult::Failure) => 123,
@@ -1193,6 +1277,46 @@ pub mod verif {
     };
     use std::collections::VecDeque;
     use std::io::{self, Read};
+
+    use super::Argument;
+    use std::io::Write;
+    use std::sync::atomic::{AtomicBool, Ordering};
+
+    static IN_TRACED_MAIN: AtomicBool = AtomicBool::new(false);
+
+    /// True exactly once per call of `xargs_main`: the outer call, which runs
+    /// the real one and logs its exit status.
+    pub(super) fn enter_traced_main() -> bool {
+        !IN_TRACED_MAIN.swap(true, Ordering::SeqCst)
+    }
+
+    pub(super) fn leave_traced_main() {
+        IN_TRACED_MAIN.store(false, Ordering::SeqCst);
+    }
+
+    /// Append one event of the batching loop, `{"ev":NAME,FIELDS}`, to the file
+    /// named by FINDUTILS_VERIF_TRACE (no-op when the variable is not set).
+    pub(super) fn emit(event: &str, fields: &str) {
+        if let Some(path) = std::env::var_os("FINDUTILS_VERIF_TRACE") {
+            if let Ok(mut f) = std::fs::OpenOptions::new()
+                .create(true)
+                .append(true)
+                .open(path)
+            {
+                let sep = if fields.is_empty() { "" } else { "," };
+                let _ = writeln!(f, "{{\"ev\":\"{event}\"{sep}{fields}}}");
+            }
+        }
+    }
+
+    /// Length and termination kind of an argument as JSON object members.
+    pub(super) fn describe(arg: &Argument) -> String {
+        format!(
+            "\"len\":{},\"hard\":{}",
+            arg.arg.len(),
+            arg.kind == ArgumentKind::HardTerminated
+        )
+    }
 
     /// One result of a `read()` call on the simulated input stream.
     #[derive(Clone, Debug)]
